@@ -220,6 +220,14 @@ def run(ctx: Ctx):
         empty = (f"len({cv}.write_buffer)", "==", 0, True) in facts
         cons = f"_handle_connections:clean-close@{tag}{'-closed' if closed else ''}"
         ctx.inst(cons, sample={"where": gh.loc(n), "closed": closed, "closing": closing, "buffer_empty": empty})
+        # pending output = bytes in the buffer AND messages not yet appended to it
+        queued_none = (f"{cv}.has_queued_messages", "truthy", None, False) in facts
+        if closing and empty and not closed and not queued_none:
+            ctx.fail(cons + "#queued", gh.loc(n),
+                     f"a CLOSING connection is closed as soon as its write buffer is empty, without "
+                     f"requiring `not {cv}.has_queued_messages`: a message still in the connection's "
+                     f"queue (or taken from it by the writer thread but not yet appended) is lost - "
+                     f"e.g. the DWA of a DWR that is immediately followed by the DPA, or the 3010 CEA")
         if not (closed or (closing and empty)):
             ctx.fail(cons, gh.loc(n),
                      f"the connection is closed cleanly without requiring `state == CLOSED` or "
@@ -235,6 +243,37 @@ def run(ctx: Ctx):
         ctx.fail(cons, hc.loc(), f"a CLOSING connection whose buffer has drained is not closed at "
                  f"the {sorted(missing)} site(s): after the DPA the connection lingers until the "
                  f"wait timeout")
+    # what "queued" means: every message handed to add_out_msg until the writer is done with it
+    pcx = model.cls("node.peer", "PeerConnection")
+    hq = pcx.methods.get("has_queued_messages")
+    cons = "PeerConnection.has_queued_messages"
+    ctx.inst(cons)
+    if hq is None:
+        ctx.fail(cons, pcx.loc(), "PeerConnection has no has_queued_messages property: the I/O loop "
+                 "cannot tell that output is still on its way to the write buffer")
+    else:
+        ctx.use(hq)
+        rets = [x for x in ast.walk(hq.node) if isinstance(x, ast.Return) and x.value is not None]
+        okq = len(rets) == 1 and ast.unparse(rets[0].value).replace(" ", "") in (
+            "self._write_msg_queue.unfinished_tasks>0", "self._write_msg_queue.unfinished_tasks!=0",
+            "bool(self._write_msg_queue.unfinished_tasks)")
+        if not okq:
+            ctx.fail(cons, hq.loc(), "has_queued_messages is not `_write_msg_queue.unfinished_tasks > 0`: "
+                     "qsize()/empty() miss the message the writer has dequeued but not yet appended")
+        ww = pcx.methods.get("work_write_queue")
+        gw = cfg_of(ww, exc_everywhere=True)
+        gets = [x for x in gw.nodes if x.kind == "stmt" and any(
+            A.call_name(c).endswith("_write_msg_queue.get") for c in x.calls())]
+        dones = [x for x in gw.nodes if any(A.call_name(c).endswith("_write_msg_queue.task_done") for c in x.calls())]
+        cons = "work_write_queue:task_done-after-every-message"
+        ctx.inst(cons)
+        for gt in gets:
+            nxt = [d for l, d in gt.succ if l not in ("exc", "raise")]
+            back = gw.reach(nxt, normal_blocked=dones)
+            if gt in back or gw.exit in back:
+                ctx.fail(cons, gw.loc(gt), "after taking a message from the queue the writer can reach its "
+                         "next iteration (or end) without task_done(): has_queued_messages stays true "
+                         "for ever and a CLOSING connection is never closed before the wait timeout")
     # the interrupt site only sees the wake-ups that are actually taken from the pipe
     from .common_node import wakeup_tokens_all_handled
     wakeup_tokens_all_handled(ctx, "C18-R3b")
